@@ -256,6 +256,13 @@ fn starts_with_at(t: &[char], p: usize, s: &str) -> bool {
 /// Tokenizes by the documented rules.  `error_ty` is the type of the error token.
 /// Returns tokens without EOI, including INVALID gap tokens.
 pub fn ref_lex(modes: &[RefMode], input: &str, error_ty: u16) -> Vec<RefTok> {
+    ref_lex_flags(modes, input, error_ty).0
+}
+
+/// as `ref_lex`; the flag says whether, at some position the lexer visited, a terminal's longest
+/// match failed its lookahead condition while a shorter match of the same terminal satisfied it
+pub fn ref_lex_flags(modes: &[RefMode], input: &str, error_ty: u16) -> (Vec<RefTok>, bool) {
+    let mut shorter_match_needed = false;
     let t: Vec<char> = input.chars().collect();
     let mut byte_of: Vec<usize> = input.char_indices().map(|(i, _)| i).collect();
     byte_of.push(input.len());
@@ -321,11 +328,15 @@ pub fn ref_lex(modes: &[RefMode], input: &str, error_ty: u16) -> Vec<RefTok> {
         prio += 1;
         for term in &m.terms {
             let ends = term.rx.ends_at(&t, p);
+            let longest = ends.iter().copied().max();
             let ok = ends.into_iter().filter(|e| match &term.lookahead {
                 None => true,
                 Some((pos, la)) => !la.ends_at(&t, *e).is_empty() == *pos,
             });
             if let Some(e) = ok.max() {
+                if Some(e) != longest {
+                    shorter_match_needed = true;
+                }
                 consider(e, prio, term.ty);
             }
             prio += 1;
@@ -366,7 +377,7 @@ pub fn ref_lex(modes: &[RefMode], input: &str, error_ty: u16) -> Vec<RefTok> {
     if let Some(g) = gap_start.take() {
         out.push(RefTok { ty: T_INVALID, start: byte_of[g], end: byte_of[t.len()] });
     }
-    out
+    (out, shorter_match_needed)
 }
 
 /// (line, column) of the character that starts at byte offset `off` (or would start there):
